@@ -1234,7 +1234,9 @@ func (f *Frame) loopHeader(li *LoopInfo, st *State, phiEntry map[*ssa.Phi]Val) {
 			}
 		}
 	}
-	st.called = map[string]Term{} // per-iteration: calls made before the loop head do not count
+	if f.isTop {
+		st.called = map[string]Term{} // per-iteration: calls made before the loop head do not count
+	}
 	for p := range phiEntry {
 		invariant := true
 		for i := range li.Header.Preds {
